@@ -143,7 +143,11 @@ def check_definition(rep, fb, crates=None, rule_prefix="def"):
                 g = T.bsubst(state[f][1], env, None, F)
                 rep.ob(rule_prefix + ".state", inst + "." + f, T.bequal(g, R2[f], F), "next chaining state", loc,
                        computed=T.bshow(g), expected=T.bshow(R2[f]))
-            # nothing but the declared state may change: the cipher backend cell is opaque and untouched
+            bad = [o for o in path["oblig"] if not o["ok"]]
+            rep.ob(rule_prefix + ".no-panic", inst, not bad, "; ".join("%s %s" % (o["kind"], o["detail"]) for o in bad[:3]) or "%d panic obligations discharged" % len(path["oblig"]), loc)
+            if be.par is not None and "par" not in bm.err:
+                badp = [o for o in bm.par[2]["oblig"] if not o["ok"]]
+                rep.ob(rule_prefix + ".no-panic", inst + ".par", not badp, "; ".join("%s %s" % (o["kind"], o["detail"]) for o in badp[:3]) or "%d panic obligations discharged" % len(bm.par[2]["oblig"]), loc_of(be.par))
         except Undecided as e:
             rep.undecided(rule_prefix + ".kernel", inst, str(e), loc)
 
@@ -182,9 +186,11 @@ def closed_form_par(bm, F):
     return exp_out, exp_state
 
 
-def check_par(rep, fb, rule_prefix="par"):
+def check_par(rep, fb, crates=None, rule_prefix="par"):
     """C07 (ii): every overridden parallel body == closed form of the n-fold one-block kernel."""
     for be in discover_backends(fb):
+        if crates is not None and be.cr.name not in crates:
+            continue
         inst = be.name()
         if be.tail is not None:
             rep.undecided(rule_prefix + ".tail-override", inst, "tail method overridden; no rule built for it", loc_of(be.tail))
